@@ -3,6 +3,7 @@ import CnbVerif.Props.C11
 #print axioms CnbVerif.C11.delete_complete
 #print axioms CnbVerif.C11.delete_meets_oracle
 #print axioms CnbVerif.C11.remove_dir_recursively_frame
+#print axioms CnbVerif.C11.unlink_keeps_other_names
 #print axioms CnbVerif.C11.request_frame
 #print axioms CnbVerif.C11.request_recreated
 #print axioms CnbVerif.C11.request_meets_oracle
@@ -11,3 +12,4 @@ import CnbVerif.Props.C11
 #print axioms CnbVerif.C11.not_found_means_absent
 #print axioms CnbVerif.C11.depth_budget_suffices
 #print axioms CnbVerif.C11.d4_counterexample
+#print axioms CnbVerif.C11.shared_top_counterexample
